@@ -10,6 +10,7 @@ CONSTANTS
   MaxFaults = 1
   StoreMetaFirst = FALSE
   KillWaits = FALSE
+  GcProtectsMergeSources = TRUE
   ReplaceStaleDel = TRUE
 INVARIANT NeverDeletesNeeded
 CHECK_DEADLOCK FALSE
